@@ -31,7 +31,7 @@ def build_tbl(
         keys = yield from utils.map_strict_with_hook(
             keys, utils.recursive_strict
         )
-        hashes: list[int] = []
+        hashes: list[AS.Key] = []
         for key in keys:
             k = yield from key.as_key()
             hashes.append(k)
